@@ -123,3 +123,253 @@ class LogicSem:
 
     def valname(self, i):
         return self.names[int(i)]
+
+
+# ---------------------------------------------------------------------------
+# Interpretations on bounded domains
+# ---------------------------------------------------------------------------
+
+MODAL_KIND = {'Possibility': 'E', 'Necessity': 'A'}
+QUANT_KIND = {'Existential': 'E', 'Universal': 'A'}
+
+
+def frame_constraint(frame, W, R):
+    """z3 constraint that the relation R (function (i, j) -> Bool over
+    concrete world indexes < W) meets the frame condition."""
+    cs = []
+    if frame in (None, 'none'):
+        return cs
+    if frame == 'serial':
+        for i in range(W):
+            cs.append(z3.Or(*[R(i, j) for j in range(W)]))
+        return cs
+    for i in range(W):
+        cs.append(R(i, i))
+    if frame == 'reflexive':
+        return cs
+    for i in range(W):
+        for j in range(W):
+            for k in range(W):
+                cs.append(z3.Implies(z3.And(R(i, j), R(j, k)), R(i, k)))
+    if frame == 's4':
+        return cs
+    for i in range(W):
+        for j in range(W):
+            cs.append(z3.Implies(R(i, j), R(j, i)))
+    if frame == 's5':
+        return cs
+    raise ValueError(frame)
+
+
+class Interp:
+    """A symbolic interpretation for one logic over W worlds and K domain
+    elements.
+
+    * atoms / opaque sentences: one Int per (sentence, world);
+    * predicates: one Int per (predicate, element tuple, world);
+    * constants and world numbers occurring on a branch are *names*:
+      ``den(c)`` in [0, K), ``wden(w)`` in [0, W) (world 0 / None is world 0);
+    * ``R(i, j)`` Bool per pair, constrained by the logic's frame condition;
+    * in the classical family identity is equality of denotations and
+      existence is true of everything.
+
+    ``which`` selects the truth tables: 'spec' (oracle) or 'impl' (tables
+    extracted from the code); quantifiers and modal operators always follow
+    spec.generalize with the flavour of the logic.
+    """
+
+    def __init__(self, S: LogicSem, which='spec', W=1, K=1, tag=''):
+        self.S = S
+        self.which = which
+        self.W = W if S.modal else 1
+        self.K = K
+        self.tag = tag
+        self.vars: dict = {}
+        self.cons: list = []
+        self._gen_cache: dict = {}
+        self.info = S.info
+        if S.modal:
+            self.cons += frame_constraint(self.info['frame'], self.W, self.Rc)
+
+    # -- variables ----------------------------------------------------------
+    def _val(self, key):
+        v = self.vars.get(key)
+        if v is None:
+            v = self.vars[key] = z3.Int(f'{self.tag}{key}')
+            self.cons.append(self.S.dom(v))
+        return v
+
+    def _int(self, key, n):
+        v = self.vars.get(key)
+        if v is None:
+            v = self.vars[key] = z3.Int(f'{self.tag}{key}')
+            self.cons += [v >= 0, v < n]
+        return v
+
+    def Rc(self, i, j):
+        key = ('R', i, j)
+        v = self.vars.get(key)
+        if v is None:
+            v = self.vars[key] = z3.Bool(f'{self.tag}R_{i}_{j}')
+        return v
+
+    def R(self, u, v):
+        'Access between world terms (z3 Int or int).'
+        if isinstance(u, int) and isinstance(v, int):
+            return self.Rc(u, v)
+        return z3.Or(*[
+            z3.And(u == i, v == j, self.Rc(i, j))
+            for i in range(self.W) for j in range(self.W)])
+
+    def den(self, c):
+        'Denotation (element index) of a constant name.'
+        if self.K == 1:
+            return 0
+        return self._int(('den', c.spec), self.K)
+
+    def wden(self, w):
+        'Model world of a branch world number (None and 0 are world 0).'
+        if w is None or self.W == 1:
+            return 0
+        if isinstance(w, int) and w == 0:
+            return 0
+        return self._int(('wden', int(w)), self.W)
+
+    @staticmethod
+    def _sel(index, n, f):
+        'f(index) for a z3 Int term or an int index in [0, n).'
+        if isinstance(index, int):
+            return f(index)
+        e = f(n - 1)
+        for i in range(n - 2, -1, -1):
+            e = z3.If(index == i, f(i), e)
+        return e
+
+    def _at(self, key, u):
+        return self._sel(u, self.W, lambda i: self._val((*key, i)))
+
+    def _ext(self, pred, elems, u):
+        'value of pred at element tuple (ints or z3 terms) at world term u'
+        def at_world(i):
+            def rec(prefix, rest):
+                if not rest:
+                    return self._val(('P', pred.spec, tuple(prefix), i))
+                return self._sel(rest[0], self.K, lambda e: rec(prefix + [e], rest[1:]))
+            return rec([], list(elems))
+        return self._sel(u, self.W, at_world)
+
+    # -- generalised connectives -------------------------------------------
+    def _gen_table(self, kind, flavour):
+        key = (kind, flavour)
+        t = self._gen_cache.get(key)
+        if t is None:
+            names = self.S.names
+            t = {}
+            for pattern in itertools.product((False, True), repeat=self.S.n):
+                present = [names[i] for i, p in enumerate(pattern) if p]
+                t[pattern] = self.S.idx[spec.generalize(self.S.base, flavour, kind, present)]
+            self._gen_cache[key] = t
+        return t
+
+    def generalize(self, kind, flavour, instances):
+        """instances: list of (active: z3 Bool, value: z3 Int)."""
+        n = self.S.n
+        has = [z3.Or(*[z3.And(a, v == i) for a, v in instances]) if instances else z3.BoolVal(False)
+               for i in range(n)]
+        table = self._gen_table(kind, flavour)
+        items = list(table.items())
+        e = z3.IntVal(items[-1][1])
+        for pattern, res in items[:-1]:
+            cond = z3.And(*[h if p else z3.Not(h) for h, p in zip(has, pattern)])
+            e = z3.If(cond, z3.IntVal(res), e)
+        return e
+
+    # -- evaluation -----------------------------------------------------------
+    def opaque(self, s):
+        M = self.S.logic.Meta
+        if type(s) is Quantified and not M.quantified:
+            return True
+        if type(s) is Operated and s.operator in M.modal_operators and not M.modal:
+            return True
+        return False
+
+    def value(self, s, u=0, env=None):
+        'z3 Int term: value of sentence s at world term u.'
+        if self.opaque(s):
+            if s.variables and env:
+                raise NotImplementedError('open opaque sentence')
+            return self._at(('O', s.ident), u)
+        t = type(s)
+        if t is Atomic:
+            return self._at(('A', s.spec), u)
+        if t is Predicated:
+            elems = []
+            for p in s.params:
+                if type(p) is Constant:
+                    elems.append(self.den(p))
+                else:
+                    elems.append(env[p])
+            if self.info['classical'] and s.predicate.is_system:
+                T = self.S.idx['T']
+                F = self.S.idx['F']
+                if s.predicate.name == 'Identity':
+                    a, b = elems
+                    if isinstance(a, int) and isinstance(b, int):
+                        return z3.IntVal(T if a == b else F)
+                    return z3.If(a == b, z3.IntVal(T), z3.IntVal(F))
+                return z3.IntVal(T)
+            return self._ext(s.predicate, elems, u)
+        if t is Operated:
+            op = s.operator
+            if op.name in MODAL_KIND:
+                def at(i):
+                    inst = [(self.Rc(i, j), self.value(s.lhs, j, env)) for j in range(self.W)]
+                    return self.generalize(MODAL_KIND[op.name], self.info['modal_flavour'], inst)
+                return self._sel(u, self.W, at)
+            return self.S.tf(self.which, op.name, *[self.value(x, u, env) for x in s.operands])
+        if t is Quantified:
+            inst = []
+            for e in range(self.K):
+                env2 = dict(env or {})
+                env2[s.variable] = e
+                inst.append((z3.BoolVal(True), self.value(s.sentence, u, env2)))
+            return self.generalize(QUANT_KIND[s.quantifier.name], self.info['quant'], inst)
+        raise NotImplementedError(t)
+
+    def des(self, s, u=0):
+        return self.S.is_des(self.which, self.value(s, u))
+
+    def sat_node(self, node):
+        'z3 Bool: the interpretation satisfies the tableau node.'
+        get = node.get
+        if get('world1') is not None and get('world2') is not None:
+            return self.R(self.wden(node['world1']), self.wden(node['world2']))
+        s = get('sentence')
+        if s is None:
+            return z3.BoolVal(True)
+        u = self.wden(get('world'))
+        d = get('designated')
+        des = self.S.is_des(self.which, self.value(s, u))
+        if d is None or d is True:
+            return des
+        return z3.Not(des)
+
+    def sat_nodes(self, nodes):
+        return z3.And(*[self.sat_node(n) for n in nodes]) if nodes else z3.BoolVal(True)
+
+    def constraints(self):
+        return list(self.cons)
+
+    def describe(self, model):
+        'Readable rendering of the interpretation under a z3 model.'
+        out = {}
+        for key, var in self.vars.items():
+            v = model.eval(var, model_completion=True)
+            if key[0] == 'R':
+                if z3.is_true(v):
+                    out.setdefault('R', []).append([key[1], key[2]])
+            elif key[0] in ('den', 'wden'):
+                out.setdefault(key[0], {})[str(key[1])] = v.as_long()
+            else:
+                out.setdefault(key[0], {})[str(key[1:])] = self.S.names[v.as_long()]
+        return out
